@@ -154,26 +154,45 @@ func concurrency(cfg Cfg, thorough bool, deadline time.Time, wo *workerOut) map[
 	}
 	// The upstream answers without delay in this scenario, so the refresh thread is an ordinary runnable thread and
 	// every interleaving of it with the clients is a matter of preemptions only (no timer deviations needed).
-	bounds := []vsched.Bound{{0, 0}, {1, 0}}
-	clients := 3
+	type spec struct {
+		clients int
+		bounds  []vsched.Bound
+	}
+	specs := []spec{{2, []vsched.Bound{{0, 0}, {1, 0}}}}
 	if thorough {
-		bounds = append(bounds, vsched.Bound{2, 0})
-		clients = 2
+		specs = []spec{{3, []vsched.Bound{{0, 0}, {1, 0}}}, {2, []vsched.Bound{{0, 0}, {1, 0}, {2, 0}}}}
 	}
-	sc := concScenario(cfg, clients)
-	e := &vsched.Explorer{Sc: sc, Bounds: bounds, Deadline: deadline}
-	st := e.Explore()
-	for k := range st.Violations {
-		v := st.Violations[k]
-		if strings.HasPrefix(v.Sig, "HARNESS") || !e.Confirm(&v, 5) {
-			fmt.Fprintf(os.Stderr, "C08: schedule exploration: non-reproducible or harness failure: %s\n", v.Sig)
-			os.Exit(2)
+	var execs, steps int64
+	outcomes := 0
+	exhaustive := true
+	var names []string
+	var allBounds [][]vsched.Bound
+	maxDepth := 0
+	for _, sp := range specs {
+		sc := concScenario(cfg, sp.clients)
+		e := &vsched.Explorer{Sc: sc, Bounds: sp.bounds, Deadline: deadline}
+		st := e.Explore()
+		for k := range st.Violations {
+			v := st.Violations[k]
+			if strings.HasPrefix(v.Sig, "HARNESS") || !e.Confirm(&v, 5) {
+				fmt.Fprintf(os.Stderr, "C08: schedule exploration: non-reproducible or harness failure: %s\n", v.Sig)
+				os.Exit(2)
+			}
+			wo.Viols = append(wo.Viols, violOut{Class: "schedule", Sig: fmt.Sprintf("config{%s} scenario=%s schedule-bound=%v: %s", cfg, sc.Name, v.Bound, v.Sig),
+				Detail: map[string]any{"config": cfg, "scenario": sc.Name, "schedule": v.Schedule, "bound": v.Bound, "detail": v.Detail, "trace": v.Trace}})
 		}
-		wo.Viols = append(wo.Viols, violOut{Class: "schedule", Sig: fmt.Sprintf("config{%s} scenario=%s schedule-bound=%v: %s", cfg, sc.Name, v.Bound, v.Sig),
-			Detail: map[string]any{"config": cfg, "scenario": sc.Name, "schedule": v.Schedule, "bound": v.Bound, "detail": v.Detail, "trace": v.Trace}})
+		if !st.Exhaustive {
+			exhaustive = false
+			wo.CapHit = append(wo.CapHit, fmt.Sprintf("time budget reached in schedule exploration %s (%s)", sc.Name, cfg))
+		}
+		execs += st.Executions
+		steps += st.Steps
+		outcomes += len(st.OutcomeHashes)
+		names = append(names, sc.Name)
+		allBounds = append(allBounds, sp.bounds)
+		if st.MaxDepth > maxDepth {
+			maxDepth = st.MaxDepth
+		}
 	}
-	if !st.Exhaustive {
-		wo.CapHit = append(wo.CapHit, fmt.Sprintf("time budget reached in schedule exploration (%s)", cfg))
-	}
-	return map[string]any{"scenario": sc.Name, "executions": st.Executions, "decisions": st.Steps, "distinct_outcomes": len(st.OutcomeHashes), "bounds": bounds, "bound_completed": st.BoundCompleted, "exhaustive_within_bounds": st.Exhaustive, "max_depth": st.MaxDepth}
+	return map[string]any{"scenarios": names, "executions": execs, "decisions": steps, "distinct_outcomes": outcomes, "bounds": allBounds, "exhaustive_within_bounds": exhaustive, "max_depth": maxDepth}
 }
